@@ -21,7 +21,7 @@ ASSUMPTIONS = ["the scheduler serialises real threads; a race whose window lies 
                "oracle (5) (screen = printed lines in file order + last frame) is evaluated for Live displays whose "
                "frames carry unique tokens; see the known finding about the print-versus-refresh window",
                "a wall-clock watchdog (30 s per schedule) firing is inconclusive"]
-REQUIRED = ["mon.nonterminal_final_frame", "mon.schedules", "mon.exactly_once_contiguous", "mon.capture_isolation", "mon.record_order",
+REQUIRED = ["mon.log_call_site", "mon.nonterminal_final_frame", "mon.schedules", "mon.exactly_once_contiguous", "mon.capture_isolation", "mon.record_order",
             "mon.deadlock_detector", "mon.screen_replay", "mon.context_switches"]
 MIN_NONTRIVIAL = {"quick": 800, "thorough": 50000}
 
@@ -35,6 +35,17 @@ CORE_FUNCTIONS = {"Console._enter_buffer", "Console._exit_buffer", "Console._che
                   "Progress.process_renderables", "LiveRender.position_cursor", "_RefreshThread.run"}
 
 
+def _log_site_a(console, msg):
+    console.log(msg)
+
+
+def _log_site_b(console, msg):
+    console.log(msg)
+
+
+LOG_SITES = [(_log_site_a, _log_site_a.__code__.co_firstlineno + 1), (_log_site_b, _log_site_b.__code__.co_firstlineno + 1)]
+
+
 def _instrument(sched):
     global _codes, _patched
     from rv.sched import scheduler as S
@@ -44,9 +55,10 @@ def _instrument(sched):
     import rich.live_render as rlr
     import rich.progress as rp
     import rich.file_proxy as rfp
+    import rich._log_render as rlog
     if _codes is None:
         _codes = []
-        for mod in (rc, rl, rlr, rp, rfp):
+        for mod in (rc, rl, rlr, rp, rfp, rlog):
             _codes.extend(S.code_objects(mod))
     core = [c for c in _codes if c.co_qualname in CORE_FUNCTIONS]
     S.install(sched, _codes, (), core)
@@ -147,6 +159,21 @@ def wl_schedules(ctx, rng, case_no):
     execute(ctx, prog, display, terminal, rng.choice([0, 1, 2, 3]), rng.choice([6, 12]), strategy, strat_kind, sseed)
 
 
+def wl_concurrent_logs(ctx, rng, case_no):
+    """Nothing but log() calls from 2-4 threads at two source lines, many cheap schedules: the log renderer (time
+    and path columns) is shared by all threads of a console."""
+    from rv.sched import scheduler as S
+    nthreads = rng.choice([2, 2, 3, 4])
+    prog = [[["log", "T%d.%d" % (th, i)] for i in range(rng.randint(1, 3))] for th in range(nthreads)]
+    strat_kind = rng.choice(["pct2", "pct3", "random", "random"])
+    sseed = rng.randrange(1 << 30)
+    if strat_kind == "random":
+        strategy = S.RandomWalk(sseed, switch_prob=rng.choice([0.05, 0.2, 0.5]))
+    else:
+        strategy = S.PCT(sseed, depth=int(strat_kind[3]), est_steps=rng.choice([200, 600]))
+    execute(ctx, prog, "none", rng.random() < 0.5, 0, 12, strategy, strat_kind, sseed)
+
+
 def wl_nonterminal_live(ctx, rng, case_no):
     """Live displays with a refresh thread on a console that is NOT a terminal (output piped to a file): nothing is
     drawn while it runs, the final frame is written once at stop.  The refresh thread and stop() meet in a narrow
@@ -208,9 +235,11 @@ def execute(ctx, prog, display, terminal, firings, height, strategy, strat_kind,
     sched = S.Scheduler(strategy, max_steps=600000)
     holder["firings"] = firings
     _instrument(sched)
+    from rv.core.ctx import stable_hash as _sh
+    log_path = _sh(("log_path", repr(prog), sseed)) % 2 == 0
     file = coop.RecordingFile(sched, tty=terminal)
     console = Console(file=file, width=60, height=height, force_terminal=terminal, color_system="truecolor",
-                      legacy_windows=False, record=True, log_time=False, log_path=False, _environ={}, highlight=False)
+                      legacy_windows=False, record=True, log_time=False, log_path=log_path, _environ={}, highlight=False)
     console._lock = coop.CoopRLock(sched, "console._lock")
     console._record_buffer_lock = coop.CoopRLock(sched, "console._record_buffer_lock")
     events = []          # (step, thread, kind, detail)
@@ -245,12 +274,13 @@ def execute(ctx, prog, display, terminal, firings, height, strategy, strat_kind,
             return orig_render(console_, options)
         lr.__rich_console__ = render
 
-    def do_op(op):
+    def do_op(op, th=0):
         k = op[0]
         if k == "print":
             console.print(Text("\n".join(payload_lines(op[1], op[2]))))
         elif k == "log":
-            console.log(Text("B:%s E:%s" % (op[1], op[1])))
+            # threads log from two different source lines (the line is shown at the right when log_path is on)
+            LOG_SITES[th % 2][0](console, Text("B:%s E:%s" % (op[1], op[1])))
         elif k == "capture":
             with console.capture() as cap:
                 console.print(Text("\n".join(payload_lines(op[1], 2))))
@@ -282,7 +312,7 @@ def execute(ctx, prog, display, terminal, firings, height, strategy, strat_kind,
             for op in prog[th]:
                 events.append((sched.step, "T%d" % th, "op_begin", op))
                 cur_op["T%d" % th] = op[0]
-                do_op(op)
+                do_op(op, th)
                 cur_op["T%d" % th] = None
                 events.append((sched.step, "T%d" % th, "op_end", op))
         return run
@@ -342,6 +372,14 @@ def execute(ctx, prog, display, terminal, firings, height, strategy, strat_kind,
                     ctx.violation("print-output-interleaved-with-other-output:%s" % display,
                                   dict(wit, payload=pid, inside=others[:4], segment=seg[:200]))
                     return
+                if op[0] == "log" and log_path:
+                    ctx.count("mon.log_call_site")
+                    line = [l for l in text.split("\n") if b in l]
+                    site = "c11.py:%d" % LOG_SITES[th % 2][1]
+                    if line and site not in sgr.decode(line[0]).text:
+                        ctx.violation("log-line-names-another-thread's-call-site:%s" % display,
+                                      dict(wit, payload=pid, line=sgr.decode(line[0]).text.strip(), want_site=site))
+                        return
                 writers.add(th)
     # identical prints: as many copies in the file as were printed outside a capture block, none lost, none extra
     n_same = sum(1 for ops in prog for op in ops if op[0] == "print_same")
@@ -528,6 +566,7 @@ def workloads(tier):
     big = tier == "thorough"
     return [WL("schedules", wl_schedules, 400000 if big else 6000),
             WL("nonterminal_live", wl_nonterminal_live, 600000 if big else 24000),
+            WL("concurrent_logs", wl_concurrent_logs, 400000 if big else 16000),
             WL("bounded_preemption_dfs", wl_dfs, 2000 if big else 16)]
 
 
